@@ -95,6 +95,7 @@ func HTTPAlphabet() []Sym {
 	return []Sym{
 		st(200, Success, false),
 		{Name: "200-partial-rejected", Group: "partial success", Class: PartialRejected, Status: 200, Rejected: 3, Message: "c14 rejected"},
+		{Name: "200-partial-rejected-all", Group: "partial success (everything sent was rejected)", Class: PartialRejected, Status: 200, Rejected: 1, Message: "c14 rejected all"},
 		{Name: "200-partial-message", Group: "partial success (message only)", Class: PartialMessage, Status: 200, Message: "c14 warning"},
 		{Name: "200-partial-rejected-nolength", Group: "partial success (response without Content-Length)", Class: PartialRejected, Status: 200, Rejected: 3, Message: "c14 rejected", NoLength: true},
 		{Name: "200-partial-empty", Group: "success", Class: PartialEmpty, Status: 200, Thorough: true},
@@ -134,6 +135,7 @@ type Config struct {
 	Interleave  bool          // HTTP only: a second exporter of the same package (other endpoint, other payload) completes an export while attempt 1 of the scripted export is in flight
 	Foreign     bool          // set by the core when it asks Target.New for that second exporter
 	Headers     bool          // gRPC only: the exporter is configured with headers (they travel as outgoing metadata of the export context)
+	Virtual     bool          // job "elapsed": every recorded wait advances the clock the retry package reads (Target.Clock)
 }
 
 // ForeignHost is the endpoint host of the second exporter of an Interleave configuration; the
@@ -253,6 +255,15 @@ type Target struct {
 	SetWait       func(func(context.Context, time.Duration) error)
 	Reports       func(err error, s *Sym) bool // does err identify the non-retryable answer s
 	DecodePayload func(b []byte) string        // "" if b is the export request holding the harness' one element
+	Clock         ClockSeam                    // optional: the clock the retry package reads (job "elapsed")
+}
+
+// ClockSeam: in the scratch copy the retry package's time.Now / time.Since calls are pointed at
+// a clock that is the real one plus an offset the harness advances (c14_retry_seam.go).
+type ClockSeam struct {
+	Advance func(time.Duration)
+	Reset   func()
+	Reads   func() int64 // how often the retry package has read the clock through the seam
 }
 
 // ---------------------------------------------------------------------------------------
@@ -340,6 +351,7 @@ type runState struct {
 	uctx *scriptCtx
 	exp  Exporter
 	real bool // real wait function in place
+	virt bool // recorded waits advance the retry package's clock
 
 	noDeadline  int      // gRPC: first attempt whose context carried no deadline (0 = none)
 	foreign     Exporter // Interleave configurations: exports once while attempt 1 is in flight
@@ -559,10 +571,18 @@ func Wait(ctx context.Context, d time.Duration) error {
 			return err
 		}
 		rs.steps = append(rs.steps, step{k: 'W', n: n, d: d, ev: true})
+		rs.advance(d)
 		return nil
 	}
 	rs.steps = append(rs.steps, step{k: 'W', n: n, d: d})
+	rs.advance(d)
 	return nil
+}
+
+func (rs *runState) advance(d time.Duration) {
+	if rs.virt && rs.tg.Clock.Advance != nil && d > 0 {
+		rs.tg.Clock.Advance(d)
+	}
 }
 
 func handle(err error) {
@@ -815,6 +835,10 @@ func (d *driver) exec(sc script, cfg Config, realWait bool) *runState {
 		}
 	}()
 	cur = rs
+	rs.virt = cfg.Virtual
+	if d.tg.Clock.Reset != nil {
+		d.tg.Clock.Reset()
+	}
 	if sc.ev.Kind == EvBeforeCall {
 		rs.trigger(nil)
 	}
@@ -1315,6 +1339,152 @@ func (d *driver) realwait() {
 	}
 }
 
+// elapsed: the elapsed-time budget is used up by the SUM of the waits of one call. Two
+// configurations with MaxElapsedTime 300 s whose recorded waits advance the clock the retry
+// package reads (Target.Clock; in the scratch copy retry.go's time.Now / time.Since go through
+// the seam): back-off 1 ns (only server delays count: RetryInfo 120 s three times in a row is one
+// too many) and back-off 200 s (randomised to 100..300 s by the package: the second or third wait
+// exhausts the budget). Every word of retryable answers up to the length bound, no event. The
+// oracle is the statement with the waits as observed: at a retryable answer the call must give up
+// if the waits so far exceed the limit or (where the server's delay is honoured at all) waits +
+// server delay exceed it; it must retry if waits + server delay stay a second below the limit;
+// in between (the randomised back-off landed within a second of the limit, or an HTTP client --
+// whose Retry-After handling is a recorded finding -- got a delay that straddles the limit) the
+// script is executed but not judged.
+const elapsedMargin = time.Second
+
+func (d *driver) elapsedJob() {
+	cfgs := []Config{
+		{Name: "sum-limit-throttle", Enabled: true, Initial: time.Nanosecond, MaxInterval: time.Nanosecond, MaxElapsed: 300 * time.Second, Virtual: true},
+		{Name: "sum-limit-backoff", Enabled: true, Initial: 200 * time.Second, MaxInterval: 200 * time.Second, MaxElapsed: 300 * time.Second, Virtual: true},
+	}
+	d.r.Bound("elapsed_configs", "MaxElapsedTime 300 s with back-off 1 ns / 200 s; recorded waits advance the retry package's clock")
+	if d.tg.Clock.Reads == nil || d.tg.Clock.Advance == nil {
+		d.r.Cap("job elapsed: no clock seam for this exporter")
+		return
+	}
+	before := d.tg.Clock.Reads()
+	d.exec(script{}, cfgs[0], false)
+	if d.tg.Clock.Reads() == before {
+		d.r.Cap("job elapsed: the retry package of this tree does not read the clock through time.Now/time.Since in retry.go; accumulated elapsed time is not decided")
+		return
+	}
+	var al []*Sym
+	seen := map[string]bool{}
+	for _, s := range d.alpha {
+		if s.Class != Retryable {
+			continue
+		}
+		if d.maxLen <= 3 { // quick: two answers per distinct server delay
+			k := fmt.Sprint(s.Hint, s.HintKind)
+			if seen[k+"/2"] {
+				continue
+			}
+			if seen[k] {
+				seen[k+"/2"] = true
+			}
+			seen[k] = true
+		}
+		al = append(al, s)
+	}
+	d.r.Bound("elapsed_alphabet", len(al))
+	d.r.Bound("elapsed_max_word", 3)
+	for _, cfg := range cfgs {
+		var rec func(w []*Sym)
+		rec = func(w []*Sym) {
+			if d.halt || d.r.Expired() {
+				return
+			}
+			if len(w) > 0 && d.r.Want() {
+				sc := script{word: append([]*Sym{}, w...)}
+				rs := d.exec(sc, cfg, false)
+				d.finishElapsed(sc, cfg, rs)
+			}
+			if len(w) == 3 {
+				return
+			}
+			for _, s := range al {
+				rec(append(w, s))
+			}
+		}
+		rec(nil)
+	}
+}
+
+// predictElapsed is predict for a Virtual configuration and no event, with the waits as observed.
+// ok is false when a decision fell into the margin around the limit.
+func predictElapsed(word []*Sym, cfg Config, waits []time.Duration, honoursHint bool) (ex expect, ok bool) {
+	var elapsed time.Duration
+	for i := 1; ; i++ {
+		s := success
+		if i <= len(word) {
+			s = word[i-1]
+		}
+		if s.Class.delivered() {
+			return expect{attempts: i, final: finNil, sym: s, reason: "success", handler: s.Class == PartialRejected}, true
+		}
+		if s.Class == NonRetryable {
+			return expect{attempts: i, final: finErrSym, sym: s, reason: "non-retryable " + s.Group}, true
+		}
+		switch {
+		case s.Hint > cfg.MaxElapsed:
+			return expect{attempts: i, final: finErrAny, sym: s, reason: "server delay (" + s.HintKind + ") beyond MaxElapsedTime", giveUp: true}, true
+		case elapsed > cfg.MaxElapsed+elapsedMargin:
+			return expect{attempts: i, final: finErrAny, sym: s, reason: "the waits of this call have used up MaxElapsedTime", giveUp: true}, true
+		case honoursHint && elapsed+s.Hint > cfg.MaxElapsed+elapsedMargin:
+			return expect{attempts: i, final: finErrAny, sym: s, reason: "the waits of this call plus the server delay (" + s.HintKind + ") exceed MaxElapsedTime", giveUp: true}, true
+		case elapsed+s.Hint <= cfg.MaxElapsed-elapsedMargin:
+			// must be retried
+		default:
+			return expect{}, false
+		}
+		if i-1 < len(waits) {
+			elapsed += waits[i-1]
+		} else {
+			// no further wait was observed: whatever the run did here is judged against "retried"
+			elapsed += s.Hint
+		}
+	}
+}
+
+func (d *driver) finishElapsed(sc script, cfg Config, rs *runState) {
+	d.r.Eval()
+	waitsOf := func(rs *runState) []time.Duration {
+		var ws []time.Duration
+		for _, st := range rs.steps {
+			if st.k == 'W' {
+				ws = append(ws, st.d)
+			}
+		}
+		return ws
+	}
+	ex, ok := predictElapsed(sc.word, cfg, waitsOf(rs), !d.tg.HTTP)
+	if !ok {
+		d.r.Count("elapsed_scripts_within_margin_not_judged", 1)
+		d.r.Outcome(d.tg.Name + "|elapsed|margin")
+		return
+	}
+	d.r.Outcome(d.tg.Name + "|" + rs.outcome(d.tg, ex))
+	d.r.Count("attempts", int64(rs.attempts))
+	d.r.Sample(func() any { return d.describe(sc, cfg, ex, rs) })
+	if key, msg := d.judge(sc, cfg, ex, rs); key != "" {
+		for i := 0; i < 2; i++ { // as in finishReal: the same key has to recur on fresh exporters
+			rs2 := d.exec(sc, cfg, false)
+			ex2, ok2 := predictElapsed(sc.word, cfg, waitsOf(rs2), !d.tg.HTTP)
+			if !ok2 {
+				d.r.Count("alarms_not_reproduced_on_reexecution", 1)
+				return
+			}
+			if key2, _ := d.judge(sc, cfg, ex2, rs2); key2 != key {
+				d.r.Count("alarms_not_reproduced_on_reexecution", 1)
+				d.r.Note("script %v: %q did not recur on re-execution (got %q), not reported", d.describe(sc, cfg, ex, rs)["answers"], key, key2)
+				return
+			}
+		}
+		d.r.FailHere(d.tg.Name+"|"+key, d.describe(sc, cfg, ex, rs), "%s", msg)
+	}
+}
+
 // aged: the elapsed-time budget belongs to one export call, not to the exporter. One exporter
 // with MaxElapsedTime = agedLimit is built, the harness really sleeps for longer than that (the
 // only real sleep of the check, once per exporter package), and then every script of length <= 2
@@ -1358,7 +1528,7 @@ func Run(t *testing.T, tg Target) {
 			alpha = append(alpha, s)
 		}
 	}
-	names := []string{"short", "realwait", "aged"}
+	names := []string{"short", "realwait", "aged", "elapsed"}
 	for _, s := range alpha {
 		names = append(names, "first-"+s.Name)
 	}
@@ -1379,6 +1549,8 @@ func Run(t *testing.T, tg Target) {
 			d.realwait()
 		case job == "aged":
 			d.agedJob()
+		case job == "elapsed":
+			d.elapsedJob()
 		default:
 			for _, s := range alpha {
 				if "first-"+s.Name == job {
